@@ -10,7 +10,10 @@
 (*             committed to by A, 2 the other data, 0 anything else        *)
 (*   VaultGet  get_vault_from_network / fetch_and_decrypt_vault of owner P *)
 (*             with the delivered outcome; res.pad = which of the received *)
-(*             pads came back (identified by its decrypted bytes)          *)
+(*             pads came back (identified by its decrypted bytes and the   *)
+(*             returned content type); outcome.vs of a split = the order   *)
+(*             in which the delivered result map iterates (order = the     *)
+(*             order realised by the driver)                               *)
 (* The clause operators of ClientAuth.tla decide.  Drift (not a verdict):  *)
 (* the result is not one the model of the client allows.                   *)
 (***************************************************************************)
@@ -44,13 +47,16 @@ Falsified(e) ==
                    THEN "unknown" ELSE e.res.pad
             r == ObsRes(e.res.k, pad)
         IN  When(~C15_VaultAuthentic([delivered |-> Delivered(o), res |-> r]), "C15_VaultAuthentic")
+       \cup When(~C15_VaultFieldsAuthentic([res |-> r]), "C15_VaultFieldsAuthentic")
        \cup When(~C15_FailClosed(\E k \in Delivered(o) : AuthenticPad(k), r), "C15_FailClosed")
     ELSE {}
 
 Conforms(e) ==
     IF e.ev = "ChunkGet" THEN e.keyok /\ ObsRes(e.res.k, e.res.addr) \in ChunkGet(Out(e.outcome))
     ELSE IF e.ev = "DataGet" THEN ObsRes(e.res.k, e.res.data) \in (IF e.hit THEN DataGet(e.lvl, e.kind) ELSE {ResOk(1)})
-    ELSE IF e.ev = "VaultGet" THEN e.keyok /\ ObsRes(e.res.k, e.res.pad) \in VaultGet(Out(e.outcome))
+    ELSE IF e.ev = "VaultGet" THEN /\ e.keyok
+                                   /\ e.order = e.outcome.vs      \* the map iterates in the prescribed order
+                                   /\ ObsRes(e.res.k, e.res.pad) \in VaultGetOrd(Out(e.outcome), e.order)
     ELSE e.ev # "Skipped"
 
 Init == l = 1 /\ viol = {} /\ drift = {} /\ stats = [chunk |-> 0, data |-> 0, vault |-> 0, ok |-> 0, err |-> 0]
